@@ -147,15 +147,15 @@ def lean_input(case):
 
 
 def all_inputs(case):
-    if case.get("dom") == "hashseed" or "all(" not in case["expr"]:
+    if case.get("dom") == "hashseed" or "(" not in case["expr"]:
         return []
+    _env, names = names_of(case)
     try:
-        calls = all_calls(case["expr"])
+        calls = all_calls(case["expr"], names)
     except SyntaxError:
         return []
     if not calls:
         return []
-    _env, names = names_of(case)
     outs = []
     for c in calls:
         _t, _a, truths = iteration_of(c, names)
@@ -365,11 +365,23 @@ def inner_positions(expr):
     if "\n" not in expr:
         tree, keys, order = implexpr.position_keys(expr)
         ids = dict((id(n), i) for i, n in enumerate(order))
-        for n in order:
+        def mark(n, inside):
+            # the iterable of a comprehension's first `for` belongs to the enclosing scope
+            if inside and id(n) in ids:
+                res.add(ids[id(n)])
             if type(n).__name__ in COMP_KINDS:
-                for d in ast.walk(n):
-                    if d is not n and id(d) in ids:
-                        res.add(ids[id(d)])
+                first = n.generators[0].iter
+                for ch in ast.iter_child_nodes(n):
+                    if isinstance(ch, ast.comprehension):
+                        for sub in ast.iter_child_nodes(ch):
+                            mark(sub, inside if sub is first else True)
+                    else:
+                        mark(ch, True)
+            else:
+                for ch in ast.iter_child_nodes(n):
+                    mark(ch, inside)
+
+        mark(tree, False)
     if len(_INNER) > 20000:
         _INNER.clear()
     _INNER[expr] = res
@@ -382,9 +394,17 @@ def used_names(expr):
     return set(n.id for n in ast.walk(implexpr.parse_expr(expr)) if isinstance(n, ast.Name) and isinstance(n.ctx, ast.Load))
 
 
-def all_calls(expr):
-    """the `all(<generator expression>)` calls of the condition that are not inside a comprehension, in source order"""
+def all_calls(expr, names=None):
+    """the `all(<generator expression>)` calls of the condition that are not inside a comprehension, in source order;
+    what counts is the FUNCTION the callee's name resolves to (the built-in `all`, under whatever name), not its spelling"""
+    import builtins
     tree = implexpr.parse_expr(expr)
+
+    def is_all(name):
+        if names is None:
+            return name == "all"
+        return names.get(name, getattr(builtins, name, None)) is builtins.all
+
     inside = set()
     for n in ast.walk(tree):
         if isinstance(n, (ast.ListComp, ast.SetComp, ast.DictComp, ast.GeneratorExp)):
@@ -393,7 +413,7 @@ def all_calls(expr):
                     inside.add(id(d))
     out = []
     for n in ast.walk(tree):
-        if isinstance(n, ast.Call) and isinstance(n.func, ast.Name) and n.func.id == "all" and len(n.args) == 1 \
+        if isinstance(n, ast.Call) and isinstance(n.func, ast.Name) and is_all(n.func.id) and len(n.args) == 1 \
                 and isinstance(n.args[0], ast.GeneratorExp) and not n.keywords and id(n) not in inside:
             out.append(n)
     out.sort(key=lambda n: (n.lineno, n.col_offset))
@@ -461,7 +481,7 @@ def check_all_example(tree, d, key, val, names, ar, case=None, mos=None):
         return "could not compute the first falsifying assignment of %s: %r" % (key, ex)
     if case is not None and mos:
         _e, alls = split_mos(mos)
-        tops = all_calls(case["expr"])
+        tops = all_calls(case["expr"], names)
         for j, c in enumerate(tops):
             if ast.dump(c) == d and j < len(alls) and isinstance(alls[j]["firstFalsy"], int):
                 targets, assigns, _truths = iteration_of(c, names)
@@ -484,6 +504,15 @@ def check_all_example(tree, d, key, val, names, ar, case=None, mos=None):
     if got != wantr:
         return "%s: the example %s is not the first falsifying assignment rendered by the contract's a_repr %s" % (key, str(got)[:300], str(wantr)[:300])
     return None
+
+
+def all_calls_spelled(expr):
+    """calls `<name>(<generator expression>)` outside comprehensions, whatever the name resolves to"""
+    class _Any(dict):
+        def get(self, k, d=None):
+            import builtins
+            return builtins.all
+    return all_calls(expr, _Any())
 
 
 def check_values(case, io, mos=None):
@@ -514,11 +543,19 @@ def check_values(case, io, mos=None):
         is_arg = key.strip() in params or key.strip() in io["args_rendered"]
         if is_arg and io["args_rendered"].get(key.strip()) == val:
             continue
+        if key.strip().isidentifier() and key.strip() not in names and key.strip() not in walrus and not is_arg:
+            fails.append("%s is shown (as %s), but it is a built-in name - neither an argument nor a closure / global variable" % (key.strip(), val[:60]))
+            continue
         if d in ev_by_dump:
             cands = [e["rendered"] for e in ev_by_dump[d]]
             if val in cands:
                 continue
             if val.startswith("False, e.g., with") and any(e["rendered"] == "False" for e in ev_by_dump[d]):
+                if d not in [ast.dump(c) for c in all_calls(case["expr"], names)] and \
+                        d in [ast.dump(c) for c in all_calls_spelled(case["expr"])]:
+                    fails.append("%s: a falsifying example is shown for a call that is not a call of the built-in all "
+                                 "(the name is bound to %r here)" % (key, names.get(key.split("(")[0].strip())))
+                    continue
                 f = check_all_example(tree, d, key, val, names, ar, case, mos)
                 if f:
                     fails.append(f)
@@ -535,6 +572,21 @@ def check_values(case, io, mos=None):
             fails.append("%s was %s is shown, but Python never evaluated that sub-expression" % (key, val))
         else:
             fails.append("%s is neither a sub-expression of the condition nor an argument" % key)
+    # a call of the built-in all (under whatever name) over a generator expression that Python evaluated to False and that
+    # has a falsifying element is shown WITH the first falsifying assignment
+    try:
+        quantifiers = all_calls(case["expr"], names)
+    except SyntaxError:
+        quantifiers = []
+    for c in quantifiers:
+        d = ast.dump(c)
+        if d in shown and not shown[d].startswith("False, e.g., with") and any(e["rendered"] == "False" for e in ev_by_dump.get(d, [])):
+            try:
+                ff = first_falsifying(c, names)
+            except Exception:  # noqa: B902
+                ff = None
+            if ff is not None and shown[d] == "False":
+                fails.append("%s was False is shown without the falsifying assignment %s" % (ast.unparse(c), str(ff)[:100]))
     # every representable argument is listed
     for k, r in io["args_rendered"].items():
         if r is None:
@@ -554,9 +606,7 @@ def check_values(case, io, mos=None):
                 continue
             got = shown.get(e["dump"])
             if got is None:
-                code = ("[fstring-internals-not-listed] " if e["in_fstring"] else
-                        "[comprehension-in-first-iterable-not-listed] " if (e["in_first_iter"] and any(
-                            t in e["dump"] for t in ("ListComp(", "SetComp(", "DictComp("))) else "")
+                code = "[fstring-internals-not-listed] " if e["in_fstring"] else ""
                 fails.append("%s%s (evaluated by Python to %s) has no line" % (code, e["text"], e["rendered"]))
             elif got != e["rendered"] and not (got.startswith("False, e.g., with") and e["rendered"] == "False"):
                 if got not in [x["rendered"] for x in ev_by_dump[e["dump"]]]:
@@ -641,7 +691,8 @@ def check_determinism(case, io, mos=None):
             f = check_all_example(implexpr.parse_expr(case["expr"]), d, k, v, names, a_repr_of(case), case, mos)
             if f:
                 fails.append(f)
-        if d in ev and not v.startswith("False, e.g., with"):
+        if d in ev and not v.startswith("False, e.g., with") and k not in io["args_rendered"]:
+            # (an argument is judged above: inside a comprehension its name may be re-bound to other values)
             cands = [e["rendered"] for e in ev[d]]
             if v not in cands:
                 fails.append("%s is shown as %r, the contract's a_repr gives %r" % (k, v[:80], (cands[0] or "")[:80]))
